@@ -89,6 +89,9 @@ func (i *interpreter) zvCall(fr *frame, fn *ssa.Function, args []value) value {
 			out[k] = s
 		}
 		return out
+	case "SelectOracle":
+		i.selectFn = args[0]
+		return nil
 	case "NoSummaries":
 		i.noSummary = true
 		return nil
